@@ -18,7 +18,7 @@ LEVEL_TEXT = ("Every sequence of feature requests up to the stated depth (states
 LEVEL_NOTE = ("trusted: vlib/mgraph.py feature vector (calls the public has_*/get_number_of_* detectors), vlib/ireval.py for numeric "
               "equivalence; couplings accepted between absorption / transits / lag time only (docs/modelsearch.rst exclusion table and "
               "setter docstrings)")
-RULE = ("states = distinct (code, dataset) pairs reached from pheno and pheno+depot over 18 feature requests; transitions = real setter "
+RULE = ("states = distinct (code, dataset) pairs reached from pheno, pheno+depot and pheno+depot+lag+F+peripheral over 18 feature requests; transitions = real setter "
         "calls; non-trivial transition = the setter returned a model whose code differs from its input")
 ASSUMPTIONS = ["a refusal is ValueError / NotImplementedError / pharmpy ModelError; everything else raised by a setter is an internal error",
                "when a requested feature is documented as incompatible with a present one (absorption ZO/SEQ/INST vs transits, SEQ/INST vs lag time, "
@@ -26,7 +26,7 @@ ASSUMPTIONS = ["a refusal is ValueError / NotImplementedError / pharmpy ModelErr
                "reversibility is judged after copying the initial estimates of equally named parameters; pairs whose parameter names change are counted, not judged"]
 BOUNDS = {"quick": "depth 2 over the structural alphabet from 2 start models", "thorough": "depth 3"}
 
-START = ["pheno", "pheno_oral"]
+START = ["pheno", "pheno_oral", "pheno_rich"]
 
 CATEGORY = {
     "abs_fo": ("absorption", "FO"), "abs_zo": ("absorption", "ZO"), "abs_seq": ("absorption", "SEQ-ZO-FO"), "abs_inst": ("absorption", "INST"),
